@@ -148,6 +148,8 @@ class Tracer:
         self.internal = 0          # >0 while the harness itself uses os.* (never counted, never faulted)
         self.reads = 0             # stat-class calls issued by the code under test
         self.on_crash = None
+        self.gate = None           # (req_w, ack_r): block before every call until the scheduler grants a step
+        self.yields = 0
 
     # -- helpers ---------------------------------------------------------------------------------
     def canon(self, path, dir_fd=None):
@@ -165,10 +167,20 @@ class Tracer:
         finally:
             self.internal -= 1
 
+    def yield_point(self):
+        if self.gate is None or self.internal:
+            return
+        self.yields += 1
+        w = self.orig.get("write", os.write)
+        w(self.gate[0], b"y")
+        if os.read(self.gate[1], 1) == b"":
+            os._exit(9)
+
     def read_point(self, kind, path):
         """a stat-class call of the code under test: a fault point (and yield point), not traced"""
         if self.internal:
             return
+        self.yield_point()
         k = self.reads
         self.reads += 1
         if self.reads > self.budget * 20:
@@ -204,6 +216,7 @@ class Tracer:
         if self.count >= self.budget:
             self.trace.append(["budget-exhausted", [], "abort"])
             raise Crash("budget")
+        self.yield_point()
         for p in paths:
             if not self.inside(p):
                 self.escapes.append([op, p.decode("utf-8", "backslashreplace")])
@@ -458,9 +471,10 @@ CMD_MAIN = {"put": "trashcli.put.main", "list": "trashcli.list.main", "restore":
             "empty": "trashcli.empty.main", "rm": "trashcli.rm.main"}
 
 
-def child_main(sb, world, plan, wfd):
+def child_main(sb, world, plan, wfd, gate=None):
     result = {"exit": None, "stdout": "", "stderr": "", "trace": [], "exc": None, "escapes": [], "states": []}
     tracer = Tracer(sb, world, plan)
+    tracer.gate = gate
     try:
         import importlib
         mod = importlib.import_module(CMD_MAIN[world["cmd"]])
@@ -577,5 +591,86 @@ def run_world(world, plan=None, keep=None, facts=None):
         if res["escapes"]:
             obs["escaped"] = True
         return obs
+    finally:
+        sb.destroy()
+
+
+def run_concurrent(world, procs, schedule, facts=None):
+    """several commands on ONE sandbox, one wrapped call at a time as dictated by `schedule`
+    (a list of process indices; afterwards round-robin).  `procs`: per-process overrides of the
+    world (cwd, cmd, argv, args, opts, stdin)."""
+    import_repo()
+    sb = Sandbox()
+    try:
+        sb.build(world)
+        before = sb.snapshot()
+        worlds = [dict(world, **p) for p in procs]
+        fact_values = [facts(sb, w) for w in worlds] if facts is not None else None
+        req_r, ack_w, pids, resfiles = [], [], [], []
+        for i, w in enumerate(worlds):
+            rq_r, rq_w = os.pipe()
+            ak_r, ak_w = os.pipe()
+            resfile = os.path.join(sb.tmp, "result-%d.json" % i)
+            pid = os.fork()
+            if pid == 0:
+                try:
+                    os.close(rq_r)
+                    os.close(ak_w)
+                    for fd in req_r + ack_w:
+                        os.close(fd)
+                    wfd = os.open(resfile, os.O_WRONLY | os.O_CREAT, 0o600)
+                    child_main(sb, w, {}, wfd, gate=(rq_w, ak_r))
+                finally:
+                    os._exit(3)
+            os.close(rq_w)
+            os.close(ak_r)
+            req_r.append(rq_r)
+            ack_w.append(ak_w)
+            pids.append(pid)
+            resfiles.append(resfile)
+        waiting, finished = set(), set()
+
+        def wait_ready(i):
+            b = os.read(req_r[i], 1)
+            if b == b"y":
+                waiting.add(i)
+            else:
+                finished.add(i)
+        for i in range(len(worlds)):
+            wait_ready(i)
+        executed = []
+        k = 0
+        rr = 0
+        while waiting:
+            if k < len(schedule) and schedule[k] in waiting:
+                i = schedule[k]
+            else:
+                cands = sorted(waiting)
+                i = cands[rr % len(cands)]
+                rr += 1
+            k += 1
+            waiting.discard(i)
+            executed.append(i)
+            os.write(ack_w[i], b"g")
+            wait_ready(i)
+            if len(executed) > 200000:
+                raise MachineryError("concurrent run does not finish")
+        results = []
+        for i, pid in enumerate(pids):
+            os.waitpid(pid, 0)
+            os.close(req_r[i])
+            os.close(ack_w[i])
+            with open(resfiles[i], "rb") as f:
+                raw = f.read()
+            os.unlink(resfiles[i])
+            if not raw:
+                raise MachineryError("concurrent child %d died without a report" % i)
+            res = json.loads(raw)
+            if "machinery" in res:
+                raise MachineryError("harness failure in child: " + res["machinery"])
+            results.append({"exit": res["exit"], "exc": res.get("exc"), "stderr": sb.to_model(bytes.fromhex(res["stderr"])),
+                            "stdout": sb.to_model(bytes.fromhex(res["stdout"])), "trace": res["trace"], "escapes": res["escapes"]})
+        after = sb.snapshot()
+        return {"procs": results, "before": before, "after": after, "facts": fact_values, "executed": executed}
     finally:
         sb.destroy()
